@@ -2,6 +2,7 @@ import Uft.Gen.Layout
 import Uft.Model.Mcount
 import Uft.Lemmas.Mcount
 import Uft.Lemmas.McountOverflow
+import Uft.Lemmas.StreamShape
 /-
 C02 — The recorded trace is exactly each thread's call history.
 Part 1: the record word. `Gen.Layout.packWord` is regenerated from
@@ -212,5 +213,72 @@ example : (Calls.cons (.node 1 10 50 (.cons (.node 1 20 40 (.cons (.node 2 25 30
   simp [Calls.timed, Call.timed, Calls.height, Call.height]
 
 example : Plain ({} : Cfg) := by constructor <;> simp
+
+/-!
+Part 3: the structural clauses of C02, stated outright on what the hooks write
+(corollaries of `c02_emit_exact` / `c02_overflow_drop` and the shape lemmas of
+`Uft/Lemmas/StreamShape.lean`).  `WellNested` is an independent stack-machine
+checker: every ENTRY carries depth = number of open recorded calls, every EXIT
+closes the innermost open call with the same address and depth, nothing stays
+open.
+-/
+
+/-- Entries and exits nest properly with matching addresses and each record's
+    depth equals the number of open recorded calls — for every forest, recursion,
+    both hook flavours. -/
+theorem c02_stream_well_nested (cfg : Cfg) (hp : Plain cfg) (k : Kind) (cs : Calls)
+    (hm : cs.height ≤ cfg.maxStack) (hd : cs.height ≤ cfg.depthOpt) (ht : cs.timed)
+    (hmin : cfg.minSize = 0) (hen : cfg.enabled0 = true) :
+    WellNested (runCalls cfg k (St.init cfg) cs).out := by
+  rw [(c02_emit_exact cfg hp k cs hm hd ht hmin hen).1]
+  exact evCalls_wellNested cs
+
+/-- Time stamps never decrease in the written stream, provided the clock readings
+    the hooks take along the execution never decrease (`Calls.clocked`, what
+    CLOCK_MONOTONIC gives), and every record's time stamp *is* the hook's clock
+    reading (`c02_emit_exact`), which the program's own readings just before the
+    call and just after the return bracket. -/
+theorem c02_stream_time_monotone (cfg : Cfg) (hp : Plain cfg) (k : Kind) (cs : Calls) (lo : Nat)
+    (hm : cs.height ≤ cfg.maxStack) (hd : cs.height ≤ cfg.depthOpt) (ht : cs.timed)
+    (hc : cs.clocked lo) (hmin : cfg.minSize = 0) (hen : cfg.enabled0 = true) :
+    (runCalls cfg k (St.init cfg) cs).out.Pairwise (fun a b => a.time ≤ b.time) := by
+  rw [(c02_emit_exact cfg hp k cs hm hd ht hmin hen).1]
+  exact evCalls_time_pairwise cs lo hc
+
+/-- A prefix of an execution (one call open after a completed forest): what is
+    written plus the ENTRY still owed is accepted by the checker with exactly that
+    call open. -/
+theorem c02_prefix_nested (cfg : Cfg) (hp : Plain cfg) (k : Kind) (cs : Calls) (f t0 : Nat)
+    (hm : cs.height ≤ cfg.maxStack) (hd : cs.height ≤ cfg.depthOpt) (ht : cs.timed)
+    (hmin : cfg.minSize = 0) (hen : cfg.enabled0 = true)
+    (hm1 : 0 < cfg.maxStack) (hd1 : 0 < cfg.depthOpt) :
+    let s := (entry cfg k (runCalls cfg k (St.init cfg) cs) f t0).1
+    NestedPrefix (s.out ++ pending s.frames) [f] := by
+  intro s
+  have h := c02_emit_prefix cfg hp k cs f t0 hm hd ht hmin hen hm1 hd1
+  simp only at h
+  show nestRun (some []) (s.out ++ pending s.frames) = some [f]
+  rw [h, nestRun_append]
+  have := evCalls_wellNested cs
+  unfold WellNested at this
+  rw [this]
+  simp [nestRun, nestStep]
+
+/-- also beyond --max-stack (deeper calls dropped): the written stream is still
+    well nested with true depths -/
+theorem c02_overflow_stream_well_nested (cfg : Cfg) (hp : Plain cfg) (hdo : cfg.maxStack ≤ cfg.depthOpt)
+    (cs : Calls) (ht : cs.timed) (hmin : cfg.minSize = 0) (hen : cfg.enabled0 = true) :
+    WellNested (runCalls cfg .pg (St.init cfg) cs).out := by
+  rw [c02_overflow_drop cfg hp hdo cs ht hmin hen]
+  exact nest_evCallsB cs [] cfg.maxStack
+
+/-- non-vacuity: a clocked, timed recursive forest -/
+example : (Calls.cons (.node 1 10 50 (.cons (.node 1 20 40 (.cons (.node 2 25 30 .nil) .nil)) .nil)) .nil).clocked 5 := by
+  simp [Calls.clocked, Call.clocked, Calls.lastT, Call.t1]
+
+/-- the checker rejects a stream with a wrong depth, a wrong address or a missing exit -/
+example : ¬ WellNested [⟨1, 0, 0, 7⟩, ⟨2, 0, 2, 8⟩, ⟨3, 1, 2, 8⟩, ⟨4, 1, 0, 7⟩] := by decide
+example : ¬ WellNested [⟨1, 0, 0, 7⟩, ⟨4, 1, 0, 9⟩] := by decide
+example : ¬ WellNested [⟨1, 0, 0, 7⟩] := by decide
 
 end Uft.C02
